@@ -76,11 +76,8 @@ Inductive ttrans (f : fcfg) (token noread : bool) (next : N) : tstate -> tstate 
     ttrans f token noread next (TRunning (AFail :: r) conns) (TClosing (RErr (f_refused f)) (map snd conns) (negb (is_nil conns))) [] next
 | tt_connect c r conns : token = false ->
     ttrans f token noread next (TRunning (AConnect c :: r) conns) (TRunning r ((c, next) :: conns)) [PConnect (f_db f) next] (next + 1)
-| tt_sql c r conns s : token = false -> lookupN c conns = Some s ->
-    ttrans f token noread next (TRunning (ASql c true :: r) conns) (TRunning r conns) [PSql (f_db f) s] next
-| tt_sql_fail c r conns s : token = false -> lookupN c conns = Some s ->
-    ttrans f token noread next (TRunning (ASql c false :: r) conns)
-           (TClosing (RErr (f_refused f)) (map snd conns) (negb (is_nil conns))) [PSql (f_db f) s] next
+| tt_sql c ok r conns s : token = false -> lookupN c conns = Some s ->
+    ttrans f token noread next (TRunning (ASql c ok :: r) conns) (TRunning (if ok then r else AFail :: r) conns) [PSql (f_db f) s] next
 | tt_sql_none c ok r conns : token = false -> lookupN c conns = None ->
     ttrans f token noread next (TRunning (ASql c ok :: r) conns) (TRunning r conns) [] next
 | tt_closed r had : ttrans f token noread next (TClosing r [] had) (TDone r had) [] next
@@ -99,7 +96,7 @@ Proof.
     + injection H as <- <- <-; constructor; reflexivity.
     + injection H as <- <- <-; constructor; reflexivity.
     + destruct (lookupN c conns) as [s|] eqn:L.
-      * destruct ok; injection H as <- <- <-; econstructor; eauto.
+      * injection H as <- <- <-; econstructor; eauto.
       * injection H as <- <- <-; constructor; auto.
     + injection H as <- <- <-; constructor; reflexivity.
   - destruct open as [|s0 o].
